@@ -46,6 +46,71 @@ for q in X + [["a", "b", "c", "d", "e", "f", "g", "h", "i", "j", "k"], ["z"]]:
     return out
 
 
+def h_ctparse_gen(rp):
+    """what reaches _ctparse when ctparse_gen is called with distinct option values"""
+    import importlib
+    import inspect
+    from datetime import datetime
+    C = importlib.import_module("ctparse.ctparse")
+    out = {"func": rp["func"], "clause": rp["clause"]}
+    seen = {}
+    orig = C._ctparse
+
+    def fake(*a, **k):
+        seen["b"] = dict(inspect.signature(orig).bind(*a, **k).arguments)
+        return iter(())
+    C._ctparse = fake
+    sc = object()
+    ts = datetime(2020, 2, 29, 23, 59)
+    try:
+        list(C.ctparse_gen("some text", ts, timeout=7.5, relative_match_len=0.25, max_stack_depth=3, scorer=sc, latent_time=False))
+    except Exception as e:
+        out["real_exception"] = repr(e)
+    finally:
+        C._ctparse = orig
+    b = seen.get("b", {})
+    want = {"ts": ts, "timeout": 7.5, "relative_match_len": 0.25, "max_stack_depth": 3, "scorer": sc}
+    wrong = {k: repr(b.get(k)) for k, v in want.items() if b.get(k) is not v and b.get(k) != v}
+    out["reached_the_search"] = {k: repr(v) for k, v in b.items() if k != "txt"}
+    out["confirmed"] = bool(wrong) and rp["clause"] != "no-exceptional-exit"
+    if wrong:
+        out["failing_input"] = {"call": "ctparse_gen(txt, ts, timeout=7.5, relative_match_len=0.25, max_stack_depth=3, scorer=S)", "wrong_at_the_search": wrong}
+    return out
+
+
+def h_dataset(rp):
+    """the real make_partial_rule_dataset, materialised as the training script does: one sample per trace prefix"""
+    import importlib
+    from ctparse.time.corpus import corpus
+    from ctparse.scorer import DummyScorer
+    K = importlib.import_module("ctparse.corpus")
+    out = {"func": rp["func"], "clause": rp["clause"], "confirmed": False}
+    if rp["clause"] in ("frame", "no-exceptional-exit"):
+        return out
+    C = importlib.import_module("ctparse.ctparse")
+    from datetime import datetime
+    ents = []
+    for target, ts, tests in corpus[:3]:
+        for test in tests[:4]:
+            ents.append(K.TimeParseEntry(text=test, ts=datetime.strptime(ts, "%Y-%m-%dT%H:%M"), gold=K.parse_nb_string(target)))
+    entries = list(K.make_partial_rule_dataset(ents, scorer=DummyScorer(), timeout=0, max_stack_depth=0, progress=False))
+    # reference: every candidate of every entry, one sample per prefix of its trace, labelled by value equality with the gold
+    want = []
+    for e in ents:
+        for p in C.ctparse_gen(e.text, e.ts, scorer=DummyScorer(), timeout=0, max_stack_depth=0, latent_time=False):
+            if p is None:
+                continue
+            for i in range(1, len(p.production) + 1):
+                want.append(([str(x) for x in p.production[:i]], p.resolution == e.gold))
+    got = [(list(x), bool(y)) for x, y in entries]
+    if got != want:
+        k = next((i for i, (a, b) in enumerate(zip(got, want)) if a != b), min(len(got), len(want)))
+        out["confirmed"] = True
+        out["failing_input"] = {"entries": "first 4 texts of the first 3 corpus entries", "first_differing_sample": k, "real": repr(got[k])[:300] if k < len(got) else None,
+                                "expected": repr(want[k])[:300] if k < len(want) else None, "n_real": len(got), "n_expected": len(want)}
+    return out
+
+
 def h_search_step(rp):
     """a clause about one step of the search (production step, initial filter, dedup) failed on the fragment: does the
     real search as a whole deviate from the naive reference closure (sound / complete / traces / termination)?"""
@@ -189,7 +254,33 @@ def h_roundtrip(rp):
             s = str(x)
             shape = s[0] in "0123456789X" and s[-1] == ")" and " - " not in s
         return FS.roundtrip_clauses(_env(), view(x), view(res[0]), res[1], shape)
-    return _common(rp, [x], call, clauses, [x])
+    out = _common(rp, [x], call, clauses, [x])
+    if not out.get("confirmed"):
+        # the solver's value did not show it: sweep the real text form over a grid of values of every kind
+        import itertools
+        vals = []
+        for mo, d, h, mi in itertools.product((None, 1, 2, 9, 10, 11, 12), (None, 1, 9, 10, 28, 31), (None, 0, 9, 12, 23), (None, 0, 5, 59)):
+            if (mo is None) != (d is None) and mo is None:
+                continue
+            vals.append(T.Time(year=2020 if mo else None, month=mo, day=d, hour=h, minute=mi if h is not None else None))
+        for dow in range(7):
+            vals.append(T.Time(DOW=dow))
+        for pod in list(T.pod_hours)[:12]:
+            vals.append(T.Time(POD=pod))
+        ivs = [T.Interval(t_from=a, t_to=b) for a, b in ((vals[5], vals[40]), (vals[17], None), (None, vals[23]), (vals[-1], vals[-2]))]
+        durs = [T.Duration(n, u) for n in (0, 1, 30, 9999) for u in T.DurationUnit]
+        for v in vals + ivs + durs:
+            try:
+                r = parse_nb_string(v.nb_str())
+                ok = r == v and type(r) is type(v)
+                why = "parses to %r" % (r,)
+            except Exception as e:
+                ok, why = False, "raises %r" % e
+            if not ok:
+                out["confirmed"] = True
+                out["failing_input"] = {"value": repr(v), "text_form": v.nb_str(), "real": why}
+                break
+    return out
 
 
 def h_reglan(rp):
@@ -227,7 +318,8 @@ def h_reglan(rp):
 
 
 NOMATCH_POOL = ["a-b c", "a  b", "hello   world", "a #x b", "x,y;z", "well-known fact #tag_1", "foo \u2013 bar",
-                "#_todo buy milk", "(call) mum", "one #a two #b-c three"]
+                "#_todo buy milk", "(call) mum", "one #a two #b-c three", "gym #Work", "x #a #b #c #d y", "#Home #WORK mixed Case",
+                "row boat", "orrow", "tom", "mor row tomo", "very very good", "la la la land"]
 
 
 def h_ctparse(rp):
@@ -681,6 +773,22 @@ def h_nb(rp):
                 want.append(SPEC.posterior((jn, jp)))
             out["real"], out["textbook"] = [list(x) for x in got], [list(x) for x in want]
             out["confirmed"] = len(got) != len(want) or any(not _close(g[i], w[i]) for g, w in zip(got, want) for i in (0, 1))
+            if not out["confirmed"]:
+                # long traces give joint log-probabilities far below the range of exp(): normalisation must still work
+                for joint in ((-800.0, -801.0), (-2000.0, -2000.5), (-745.2, -10.0), (0.0, 0.0), (-1e4, -1e4 - 3)):
+                    est.class_prior = joint
+                    est.log_likelihood = {"negative_class": [0.0], "positive_class": [0.0]}
+                    try:
+                        g = est.predict_log_probability([{}])[0]
+                        w = SPEC.posterior(joint)
+                        bad = any(not _close(g[i], w[i]) for i in (0, 1)) or any(math.isnan(v) or math.isinf(v) for v in g)
+                        why = list(g)
+                    except Exception as e:
+                        bad, why = True, "raises %r" % e
+                    if bad:
+                        out["confirmed"] = True
+                        out["failing_input"] = {"joint_log_probabilities": list(joint), "real": why, "textbook": list(SPEC.posterior(joint))}
+                        break
             return out
         if "_construct_log_class_prior" in f:
             ys = a[0]
@@ -812,7 +920,7 @@ def h_regexmatch(rp):
     return out
 
 
-HANDLERS = [("timers.timeout._tt", h_timer), ("types.RegexMatch.__init__", h_regexmatch), ("loader.load_default_scorer", h_loader), ("nb_scorer.", h_nb), ("ctparse._regex_stack.get_m_dist", h_gap), ("partial_parse.PartialParse.", h_partial_parse), ("nb_estimator.", h_nb), ("ctparse._match_rule", h_match_rule), ("ctparse._ctparse.emission", h_emission), ("ctparse._ctparse", h_deadline), ("ctparse._regex_stack", h_deadline), ("ctparse._get_labels", h_labels), ("ctparse.ctparse[", h_ctparse), ("regex[", h_reglan),
+HANDLERS = [("timers.timeout._tt", h_timer), ("ctparse.ctparse_gen[", h_ctparse_gen), ("corpus.make_partial_rule_dataset", h_dataset), ("types.RegexMatch.__init__", h_regexmatch), ("loader.load_default_scorer", h_loader), ("nb_scorer.", h_nb), ("ctparse._regex_stack.get_m_dist", h_gap), ("partial_parse.PartialParse.", h_partial_parse), ("nb_estimator.", h_nb), ("ctparse._match_rule", h_match_rule), ("ctparse._ctparse.emission", h_emission), ("ctparse._ctparse", h_deadline), ("ctparse._regex_stack", h_deadline), ("ctparse._get_labels", h_labels), ("ctparse.ctparse[", h_ctparse), ("regex[", h_reglan),
             ("types.Artifact.__eq__", h_eq), ("corpus.parse_nb_string.nb_str", h_roundtrip),
             ("postprocess_latent.apply_postprocessing_rules", h_postprocess),
             ("types.Time.", h_accessor), ("types.Interval.", h_accessor),
